@@ -45,6 +45,11 @@ def gen_cases(tier, seed):
     progs = [[], prog_open_write(1, 1), prog_open_write(2, 1)]
     for bits in itertools.product([1, 2], repeat=depth):
         add("start", progs, list(bits) + drain_suffix(3, 24), "exhaustive-2tasks")
+    # the same with a first data frame longer than the record size (the burst is written in several records
+    # while the lock is held): every interleaving of the first 8 steps
+    progs = [[], prog_open_write(1, 1, big=True), prog_open_write(2, 2, big=True)]
+    for bits in itertools.product([1, 2], repeat=8 if tier == "quick" else 12):
+        add("start", progs, list(bits) + drain_suffix(3, 30), "exhaustive-2tasks-bigframe")
     # random schedules, 2-4 tasks
     n = 500 if tier == "quick" else 12000
     for i in range(n):
@@ -53,7 +58,7 @@ def gen_cases(tier, seed):
         progs = [[]]
         for t in range(1, nt + 1):
             if mode == "start" or r.random() < 0.5:
-                progs.append(prog_open_write(t, r.randint(1, 3), with_await=False, disable_buf=(r.random() < 0.9)))
+                progs.append(prog_open_write(t, r.randint(1, 3), with_await=False, disable_buf=(r.random() < 0.9), big=(r.random() < 0.25)))
             else:
                 progs.append(["W:2:%d:%s" % (40 + t, payload(t, k)) for k in range(r.randint(1, 3))])
         if r.random() < 0.3:
